@@ -87,9 +87,11 @@ def settle(mod, rep):
     folds = getattr(mod, "FOLDS", {})
     sub = getattr(mod, "SUBORDINATE", {})
     clean = {}
+    known = load_known()
     for r, d in folds.items():
         skipped = [n for n in rep.notes if "not folded" in n and (not d.get("about") or any(a in n for a in d["about"]))]
-        clean[r] = rep.instances.get(d["count"], 0) >= d["min"] and not skipped and not any(f.rule == r for f in rep.findings) \
+        # a listed known finding of the fold rule (a defect of the library recorded in known_findings.json) is not news about the code under analysis
+        clean[r] = rep.instances.get(d["count"], 0) >= d["min"] and not skipped and not any(f.rule == r and known_match(known, f) is None for f in rep.findings) \
             and r not in getattr(rep, "rule_errors", {})
     stood_in = set()
     kept = []
@@ -107,6 +109,9 @@ def settle(mod, rep):
         if fr is not None and clean.get(fr):
             stood_in.add(r)
             rep.notes.append(f"{rep.prop}-{r} could not read the code ({msg[:200]}) -- not an analysis error: {rep.prop}-{fr} decided the behaviour")
+        elif fr is not None and kept:
+            # the run already reports a violation; that a shape rule could not read the same code adds nothing to it
+            rep.notes.append(f"{rep.prop}-{r} could not read the code ({msg[:200]})")
         else:
             raise AnalysisError(msg)
     if stood_in:
